@@ -139,7 +139,19 @@ fn plan10(seed: u64, run: u64, tier: Tier) -> Plan10 {
     let mut tags = Vec::new();
     let mut fs = FsSpec::default();
     let shape = mapgen::gen_shape(&mut rng);
-    let omap = mapgen::gen_orig_map(&mut rng, &program, &shape);
+    let mut omap = mapgen::gen_orig_map(&mut rng, &program, &shape);
+    if rng.chance(1, 8) {
+        // the original map names its source like the file being rewritten (in-place minification,
+        // `src/x.js` -> `lib/x.js`): the same string as the rewrite map's only source
+        let base = file.rsplit('/').next().unwrap_or("").to_string();
+        if !base.is_empty() && !omap.sources.is_empty() {
+            omap.sources[0] = base;
+            if rng.chance(1, 2) {
+                omap.source_root = None;
+            }
+            tags.push("O:source-named-like-the-file".into());
+        }
+    }
     let ojson = omap.to_json();
     tags.push(format!("O:sources={},names={},root={:?},sparse={}", shape.sources, shape.names, shape.source_root, shape.sparse));
     let mut orig_map = None;
